@@ -14,7 +14,8 @@ import LenaModel.Model.C02
 
   S = {"t":"map","f":F} | {"t":"filter","p":P} | {"t":"slice","start":i|null,"stop":i|null,"step":i|null}
     | {"t":"count","name":s,"c0":i} | {"t":"runif","p":P,"inner":[S..]}
-    | {"t":"split","bufsize":n|null,"copy":bool,"branches":[B..]}
+    | {"t":"split","bufsize":n|null,"copy":bool,"branches":[B..]}   (bufsize as given to the constructor: the driver
+      applies `effBufsize`; inside a branch also {"t":"cache"} and a nested split of stateless sequence branches)
   B = {"k":"seq","stages":[S..]} | {"k":"fc","pre":[E..],"name":s,"c0":i,"post":[S..]} | {"k":"src","m":n,"base":i}
       (the stages of a branch: map, filter, slice, runif — a Count only inside a runif)
   E = {"t":"map","f":F} | {"t":"filter","p":P} | {"t":"slice",..non-negative..} | {"t":"count","name":s,"c0":i}
@@ -69,6 +70,8 @@ inductive IEl where
   | slice (k : Lena.C17.SliceKind)
   | count (name : String)
   | runif (p : Pred) (inner : List IEl)
+  /-- a stateless element given by its list semantics (a nested `Split` of stateless branches) -/
+  | opaque (den : List V → List V)
 
 mutual
 /-- the number of `Count` elements, depth first -/
@@ -99,6 +102,7 @@ partial def iRunEl : IEl → List Int → List V → List V × List Int
     -- `Count.run`: `self.count += count` (nothing happens on an empty flow)
     let c := st.headD 0
     (countDen (markCount name c) vals, [c + vals.length])
+  | .opaque den, st, vals => (den vals, st)
   | .runif p inner, st, vals =>
     vals.foldl (fun acc v =>
       if p.eval v then
@@ -107,20 +111,30 @@ partial def iRunEl : IEl → List Int → List V → List V × List Int
       else (acc.1 ++ [v], acc.2)) ([], st)
 end
 
+instance : Inhabited CTree := ⟨.leaf⟩
+
 mutual
-partial def iEl? (j : Json) : Option IEl :=
+/-- the element tree `_contains_cache` walks, from the descriptor of a stage -/
+partial def cTree (j : Json) : CTree :=
   match str? (getD j "t") with
-  | some "map" => (fn? (getD j "f")).map IEl.map
-  | some "filter" => (pred? (getD j "p")).map IEl.filter
-  | some "slice" => (sliceKind? j).map IEl.slice
-  | some "count" => (str? (getD j "name")).map IEl.count
-  | some "runif" =>
-    match pred? (getD j "p"), iEls? (getD j "inner") with
-    | some p, some inner => some (.runif p inner)
-    | _, _ => none
-  | _ => none
-partial def iEls? (j : Json) : Option (List IEl) := (arr? j).bind (fun a => a.toList.mapM iEl?)
+  | some "cache" => .cache
+  | some "runif" => .seq (cTrees (getD j "inner"))
+  | some "split" => .split ((arr? (getD j "branches")).getD #[] |>.toList.map branchTree)
+  | _ => .leaf
+partial def cTrees (j : Json) : List CTree := ((arr? j).getD #[]).toList.map cTree
+/-- a converted branch: a `Sequence`/`FillComputeSeq` object (`_seq`: all its elements), or a `Source` -/
+partial def branchTree (b : Json) : CTree :=
+  match str? (getD b "k") with
+  | some "seq" => .seq (cTrees (getD b "stages"))
+  | some "fc" => .seq (cTrees (getD b "pre") ++ [.leaf] ++ cTrees (getD b "post"))
+  | _ => .seq []
 end
+
+def branchKind (b : Json) : Lena.C03.Kind :=
+  match str? (getD b "k") with
+  | some "fc" => .fillCompute
+  | some "src" => .source
+  | _ => .sequence
 
 mutual
 /-- the initial counters (`count0`) of the `Count` elements of an inner sequence, depth first -/
@@ -135,6 +149,20 @@ partial def iInit (j : Json) : List Int :=
 end
 
 mutual
+partial def iEl? (j : Json) : Option IEl :=
+  match str? (getD j "t") with
+  | some "map" => (fn? (getD j "f")).map IEl.map
+  | some "filter" => (pred? (getD j "p")).map IEl.filter
+  | some "slice" => (sliceKind? j).map IEl.slice
+  | some "count" => (str? (getD j "name")).map IEl.count
+  | some "cache" => some (.map .ident)          -- `Cache.run` without a cache file: the flow passes through
+  | some "split" => (stage? j).map (fun st => IEl.opaque st.den)
+  | some "runif" =>
+    match pred? (getD j "p"), iEls? (getD j "inner") with
+    | some p, some inner => some (.runif p inner)
+    | _, _ => none
+  | _ => none
+partial def iEls? (j : Json) : Option (List IEl) := (arr? j).bind (fun a => a.toList.mapM iEl?)
 partial def stage? (j : Json) : Option (Stage V) :=
   match str? (getD j "t") with
   | some "map" => (fn? (getD j "f")).map (fun f => Stage.map f.app)
@@ -159,7 +187,9 @@ partial def stage? (j : Json) : Option (Stage V) :=
     match bs, bool? (getD j "copy"), (arr? (getD j "branches")).bind (fun a => a.toList.mapM branch?) with
     | some b, some c, some brs =>
       let brs' := (List.range brs.length).zip brs |>.map (fun (i, br) => { br with id := i })
-      some (.split BrSt brs' b c)
+      -- `Split.__init__`: a finite bufsize becomes None if a sequence-type branch contains a Cache
+      let trees := ((arr? (getD j "branches")).getD #[]).toList.map (fun bj => (branchKind bj, branchTree bj))
+      some (.split BrSt brs' (effBufsize b trees) c)
     | _, _, _ => none
   | _ => none
 
